@@ -1,6 +1,7 @@
 package mon
 
 import (
+	"encoding/binary"
 	"fmt"
 	"strings"
 
@@ -113,8 +114,58 @@ func c20Class(r *model.Rec) string {
 	return ""
 }
 
+// c20DecoderAccepted: records the decoder accepts although a stricter reader would not (a mandatory
+// list naming a key twice or out of order, parameters with empty values): two decodings of the same
+// octets are duplicates, and so are a record and its copy.
+func c20DecoderAccepted(w *core.W, j int) {
+	g := model.NewGen(w.Rng(j, 9))
+	owner := model.Name{[]byte("svc"), []byte("example")}
+	params := [][]byte{
+		{0, 0, 0, 4, 0, 1, 0, 1},                           // mandatory=alpn,alpn
+		{0, 0, 0, 4, 0, 3, 0, 1},                           // mandatory=port,alpn (not in key order)
+		{0, 0, 0, 6, 0, 1, 0, 3, 0, 1},                     // mandatory=alpn,port,alpn
+		{0, 0, 0, 2, 0, 0},                                 // mandatory=mandatory
+		{0, 0, 0, 4, 0, 1, 0, 1, 0, 1, 0, 3, 2, 'h', '2'},  // ... followed by the alpn it names
+		{0, 3, 0, 2, 1, 187, 0, 1, 0, 3, 2, 'h', '3'},      // port before alpn (keys not ascending)
+		{0, 1, 0, 3, 2, 'h', '2', 0, 1, 0, 3, 2, 'h', '2'}, // alpn twice
+		{0, 4, 0, 0}, {0, 6, 0, 0}, {0, 2, 0, 0}, // empty hint lists, no-default-alpn
+	}
+	for _, t := range []uint16{64, 65} {
+		for pi, p := range params {
+			rd := append([]byte{0, byte(1 + g.R.IntN(3))}, model.Name{[]byte("target"), []byte("example")}.Wire()...)
+			rd = append(rd, p...)
+			wire := append([]byte(nil), owner.Wire()...)
+			wire = binary.BigEndian.AppendUint16(wire, t)
+			wire = binary.BigEndian.AppendUint16(wire, 1)
+			wire = binary.BigEndian.AppendUint32(wire, 300)
+			wire = binary.BigEndian.AppendUint16(wire, uint16(len(rd)))
+			wire = append(wire, rd...)
+			a, _, e1 := dns.UnpackRR(wire, 0)
+			b, _, e2 := dns.UnpackRR(append([]byte(nil), wire...), 0)
+			if e1 != nil || e2 != nil || a == nil || b == nil {
+				w.Count("decoder_refused_odd_svcb", 1)
+				continue
+			}
+			w.Eval(1)
+			w.Count("decoder_accepted_odd_svcb", 1)
+			wit := map[string]any{"wire": hx(wire), "params": pi}
+			w.Guard("IsDuplicate", wit, func() {
+				if !dns.IsDuplicate(a, a) || !dns.IsDuplicate(a, dns.Copy(a)) || !dns.IsDuplicate(dns.Copy(a), a) {
+					w.Violation("C20/not-reflexive/"+typeName(t)+"/decoder-accepted", fmt.Sprintf("IsDuplicate(r, r) / (r, Copy(r)) is false for %s", cutS(a.String())), wit)
+				}
+				if !dns.IsDuplicate(a, b) || !dns.IsDuplicate(b, a) {
+					w.Violation("C20/is-false-want-true/"+typeName(t)+"/decoder-accepted", fmt.Sprintf("two decodings of the same octets are not duplicates: %s", cutS(a.String())), wit)
+				}
+			})
+		}
+	}
+}
+
 func c20Pairs(w *core.W, j int) {
 	registerPrivate()
+	if j%40 == 0 {
+		c20DecoderAccepted(w, j)
+	}
 	ls := c01Layouts()
 	g := model.NewGen(w.Rng(j))
 	g.NoHuge = true
@@ -384,11 +435,18 @@ func c20Dedup(w *core.W, j int) {
 	g := model.NewGen(w.Rng(j))
 	g.NoHuge = true
 	g.MaxOpaque = 40
+	// one scratch map serves several calls (the documented use: "m is used to store the RRs temporary");
+	// later lists hold records equal to those an earlier call kept
+	shared := map[string]dns.RR{}
+	var carried []*model.Rec
 	for k := 0; k < 4; k++ {
 		g.Plain = k%2 == 0
 		g.MakePool(2)
 		nb := 1 + g.R.IntN(4)
 		var bases []*model.Rec
+		if j%2 == 1 {
+			bases = append(bases, carried...)
+		}
 		for i := 0; i < nb; i++ {
 			r := g.Rec(ls[g.R.IntN(len(ls))])
 			if c01Class(r, nil) == "" {
@@ -398,6 +456,7 @@ func c20Dedup(w *core.W, j int) {
 		if len(bases) == 0 {
 			continue
 		}
+		carried = []*model.Rec{bases[len(bases)-1], bases[0]}
 		var list []dns.RR
 		n := g.Len(1, 14)
 		for i := 0; i < n; i++ {
@@ -465,8 +524,16 @@ func c20Dedup(w *core.W, j int) {
 		if g.R.IntN(2) == 0 {
 			m = map[string]dns.RR{}
 		}
+		if j%2 == 1 {
+			m = shared
+			w.Count("dedup_calls_with_reused_map", 1)
+		}
 		if w.Guard("Dedup", wit, func() { out = dns.Dedup(in, m) }) {
 			continue
+		}
+		if m != nil && len(m) != 0 {
+			w.Violation("C20/dedup-scratch-map-not-empty", fmt.Sprintf("Dedup left %d record(s) in the scratch map: the next call using the map takes its records for duplicates of these", len(m)), wit)
+			clear(m)
 		}
 		if len(out) != len(order) {
 			w.Violation("C20/dedup-count", fmt.Sprintf("Dedup returned %d records, %d groups expected", len(out), len(order)), wit)
@@ -497,7 +564,7 @@ func init() {
 	core.Register(&core.Monitor{
 		ID: "C20", Level: "exploration", Plan: plan, Run: run,
 		Rule: "per registry type: a wire-originated record against its copy and variants {identical, TTL, owner case, embedded-name case, one RDATA field re-drawn (x3), class, APL IPv4 item vs the same address as IPv4-mapped IPv6 item}; oracle = model key (type, class, lower-cased owner wire, RDATA wire with embedded names lower-cased); " +
-			"symmetry, reflexivity, transitivity over the equal variants; Dedup against a stable first-occurrence filter keyed by text minus TTL with lower-cased owner, minimum TTL; non-trivial = distinct (record, variant) pair / list with duplicates",
+			"symmetry, reflexivity, transitivity over the equal variants; Dedup against a stable first-occurrence filter keyed by text minus TTL with lower-cased owner, minimum TTL, with nil, fresh and reused scratch maps (later lists repeat records an earlier call kept); non-trivial = distinct (record, variant) pair / list with duplicates",
 		MinObserved: []string{"triples", "dedup_lists_with_duplicates"},
 	})
 }
